@@ -1008,6 +1008,29 @@ theorem C10_move_swap_no_allocator_event (c : Cfg) (w : World) (s s2 x y v : Nat
     · split <;> exact ⟨rfl, rfl, rfl, rfl⟩
     · exact ⟨rfl, rfl, rfl, rfl⟩
 
+/-- image(view, alignment, allocator): a deep copy of the viewed image with the REQUESTED alignment and allocator (not the source's), in a fresh block;
+    the source is untouched -/
+theorem C10_fromview_deep_copy (c : Cfg) (w : World) (s t al s2 : Nat) (b : Img) (o : Org) (h : Inv c w) (ho : c.orgOf s = some o)
+    (ho2 : c.orgOf s2 = some o) (hpix : o.pixel = true) (hs : w.imgs s = none) (hs2 : w.imgs s2 = some b) (hnz : o.needed al b.w b.h ≠ 0)
+    (hok : (step c w (.fromview s t al s2)).2 = .ok) :
+    ∃ j, (step c w (.fromview s t al s2)).1.imgs s = some j ∧ j.w = b.w ∧ j.h = b.h ∧ j.pix = b.pix ∧ j.mem = some w.heap.length
+      ∧ j.mem ≠ b.mem ∧ j.tag = c.tagOf t ∧ j.align = al ∧ (step c w (.fromview s t al s2)).1.imgs s2 = some b := by
+  have hb : b.mem ≠ some w.heap.length := by
+    intro e
+    obtain ⟨blk, hblk, -⟩ := h.owned s2 b _ hs2 e
+    have : w.heap.length < w.heap.length := (List.getElem?_eq_some_iff.mp hblk).1
+    omega
+  have hne2 : s2 ≠ s := by intro e; subst e; rw [hs] at hs2; cases hs2
+  have hcond : o.pixel = true ∧ c.orgOf s2 = some o := ⟨hpix, ho2⟩
+  simp only [step, ho, hs, hs2, if_pos hcond] at hok ⊢
+  obtain ⟨j, hj, hjw, hjh, hjp, hjm, hjt, hja, -⟩ := pCtor_ok_img c o w s (Img.fresh al (c.tagOf t)) b.w b.h b.pix (some (b.w, b.h)) hnz hok
+  refine ⟨j, hj, hjw, hjh, hjp, hjm, ?_, hjt, hja, ?_⟩
+  · rw [hjm]; exact fun e => hb e.symm
+  · rw [(pCtor_imgs c o w s (Img.fresh al (c.tagOf t)) b.w b.h b.pix (some (b.w, b.h))).1 s2 hne2]; exact hs2
+
+example : (step seRgbX (run seRgbX (World.init none none) [.dims 0 0 0 3 2 7]) (.fromview 1 0 16 0)).2 = .ok
+    ∧ seRgbX.org.needed 16 3 2 ≠ 0 := by decide +kernel
+
 /-! ### create_view: the view lies inside the allocation -/
 
 /-- THE VIEW LIES INSIDE THE ALLOCATION (create_view over the generated size formulas): whatever address `addr` the allocator returned, the bytes
